@@ -4,7 +4,9 @@ import (
 	"errors"
 	"fmt"
 	"slices"
+	"strconv"
 	"sync"
+	"unicode/utf8"
 
 	insaneJSON "github.com/ozontech/insane-json"
 	"github.com/tidwall/gjson"
@@ -89,10 +91,16 @@ func (d *jsonDecoder) cutFieldsBySize(data []byte) []byte {
 			return jsonCutPos{}, false
 		}
 
-		// [v.Index] is value start position including quote (")
+		// [v.Index] is value start position including quote ("),
+		// [v.Raw] is the value as written: quotes included, escape sequences intact.
+		// Positions are positions in the raw text, so they must be computed from it.
+		if len(v.Raw) < 2 {
+			return jsonCutPos{}, false
+		}
+		raw := v.Raw[1 : len(v.Raw)-1]
 		return jsonCutPos{
-			start: v.Index + limit + 1,
-			end:   v.Index + len(v.Str),
+			start: v.Index + 1 + jsonRawCutLen(raw, limit),
+			end:   v.Index + len(raw),
 		}, true
 	}
 
@@ -151,4 +159,37 @@ func extractJsonParams(params Params) (jsonParams, error) {
 	return jsonParams{
 		maxFieldsSize: maxFieldsSize,
 	}, nil
+}
+
+// jsonRawCutLen returns how many bytes of the raw (escaped) string value can
+// be kept so that the unescaped value is at most limit bytes long and no
+// escape sequence is split.
+func jsonRawCutLen(raw string, limit int) int {
+	kept, i := 0, 0
+	for i < len(raw) {
+		n, size := 1, 1 // raw bytes, unescaped bytes
+		if raw[i] == '\\' && i+1 < len(raw) {
+			n = 2
+			if raw[i+1] == 'u' && i+6 <= len(raw) {
+				n = 6
+				if r, err := strconv.ParseUint(raw[i+2:i+6], 16, 32); err == nil {
+					size = utf8.RuneLen(rune(r))
+					if size < 0 {
+						size = 3 // lone surrogate half (decodes to U+FFFD)
+						if r < 0xDC00 && i+12 <= len(raw) && raw[i+6] == '\\' && raw[i+7] == 'u' {
+							if r2, err := strconv.ParseUint(raw[i+8:i+12], 16, 32); err == nil && r2 >= 0xDC00 && r2 <= 0xDFFF {
+								n, size = 12, 4 // surrogate pair: one 4-byte character
+							}
+						}
+					}
+				}
+			}
+		}
+		if kept+size > limit {
+			break
+		}
+		kept += size
+		i += n
+	}
+	return i
 }
